@@ -16,6 +16,7 @@ shape differs) the case is a C03 failure, not a C13 one: it is skipped and count
 `skipped_c03_failure`.
 """
 import hashlib
+import re
 
 from runtime.common import use_repo, pool_map
 from runtime import docs
@@ -220,13 +221,14 @@ NAMES = dict(KIND, ListItem='item', TableRow='row', TableCell='cell')
 
 
 class Blk:
-    __slots__ = ('lines', 'exp', 'lazy', 'tag')
+    __slots__ = ('lines', 'exp', 'lazy', 'tag', 'empty_start')
 
     def __init__(self, lines, exp, lazy=(), tag=''):
         self.lines = lines      # source lines without terminators
         self.exp = exp          # [(kind, relative line, children | None)]; None: cells of a row
         self.lazy = set(lazy)   # paragraph continuation lines whose container prefixes may be dropped
         self.tag = tag
+        self.empty_start = False   # a list whose first item has nothing behind its marker
 
 
 def _shift(exp, d):
@@ -310,7 +312,9 @@ def lst(items, marker='-', between=0):
             else:
                 lines.append(' ' * w + l)
         kids.append(('item', d, _shift(inner.exp, d + off)))
-    return Blk(lines, [('list', 0, kids)], lz, 'list')
+    r = Blk(lines, [('list', 0, kids)], lz, 'list' + marker[-1])
+    r.empty_start = items[0][0] is None or items[0][1]
+    return r
 
 
 def ldoc(blocks, gaps=1, lead=(), end='\n'):
@@ -350,7 +354,7 @@ def lmatch(tokens, exp, path, out):
 def lcheck(text, exp):
     """-> ('ok'|'shape'|'noraise'|'c13', n_compared, detail)"""
     try:
-        doc, _ = parse(text)
+        doc, _ = parse_only(text)
     except Exception as e:               # noqa
         return 'noraise', 0, '%s: %s' % (type(e).__name__, e)
     out = []
@@ -367,24 +371,28 @@ def lcheck(text, exp):
     return ('c13' if bad else 'ok'), len(out) + 1, bad
 
 
-def _content(line):
-    """The line without block quote markers and indentation."""
-    return line.replace('>', ' ').strip(' \t')
+_PREFIX = re.compile(r'((?:[ \t]*(?:>|[-+]|[0-9]{1,9}[.)]))*)([ \t]*)')
+
+
+def _blank_tail(line):
+    """The whitespace behind the container markers of a line that holds nothing else, or None."""
+    m = _PREFIX.fullmatch(line)
+    return m.group(2) if m else None
 
 
 def lclassify(text, bad):
     """'indented-code-block-starts-at-preceding-whitespace-line': the only wrong tokens are
-    indented code blocks, reported on a whitespace-only (blank) line that directly precedes the
-    code -- CommonMark 0.30 section 4.4: blank lines preceding an indented code block are not
-    part of it."""
+    indented code blocks, reported early, on a line that holds >= 4 columns of white space and
+    nothing else (behind the container markers), all lines between that line and the first line
+    of code being blank -- CommonMark 0.30 section 4.4: blank lines preceding an indented code
+    block are not part of it."""
     src = text.split('\n')
     for m in bad:
         o, e = m['observed_line'], m['expected_line']
-        if '/icode[' not in m['path'].rsplit('/', 1)[-1] + '[' or not isinstance(o, int) or not 1 <= o < e:
+        if not m['path'].rsplit('/', 1)[-1].startswith('icode[') or not isinstance(o, int) or not 1 <= o < e:
             return 'unclassified'
-        if any(_content(src[k - 1]) != '' for k in range(o, e)):
-            return 'unclassified'
-        if src[o - 1].replace('>', ' ').strip('\t ') != '' or len(src[o - 1].expandtabs(4)) < 4:
+        tails = [_blank_tail(src[k - 1]) for k in range(o, e)]
+        if any(t is None for t in tails) or len(tails[0].expandtabs(4)) < 4:
             return 'unclassified'
     return 'indented-code-block-starts-at-preceding-whitespace-line'
 
@@ -417,6 +425,8 @@ VOCAB = {
     'listn': lambda: lst([item([para('li'), lst([item([para('li')])], '+')], gaps=0)]),
     'listb': lambda: lst([item([para('li')], blank_start=True), item([])]),
     'olist': lambda: lst([item([para('li')]), item([para('li', 'li')])], '1.'),
+    'quotee': lambda: quote([]),
+    'liste': lambda: lst([item([]), item([para('li')])]),
     'def1': lambda: defn('[foo]: /url'),
     'def2': lambda: defn('[foo]: /url', '  "the title"'),
     'def3': lambda: defn('[foo]:', '/url', "'t'"),
@@ -427,7 +437,7 @@ VOCAB = {
 }
 LEAVES = ['p1', 'p2', 'atx', 'setext', 'setext3', 'setext-', 'hr', 'fence', 'fenceb', 'icode', 'icodeb',
           'html', 'htmlc', 'htmlp', 'table']
-CONTS = ['quote', 'quotez', 'quote2', 'list', 'list2', 'list2l', 'listn', 'listb', 'olist']
+CONTS = ['quote', 'quotez', 'quote2', 'quotee', 'list', 'list2', 'list2l', 'listn', 'listb', 'liste', 'olist']
 DEFS = ['def1', 'def2', 'def3', 'def4', 'def5', 'defp']
 
 TABLES = {
@@ -453,14 +463,17 @@ def allowed(a, b, g):
     ta, tb = a.tag, b.tag
     if ta == 'icode' and tb == 'icode':
         return False                      # one code block
-    if ta == 'list' and tb in ('icode', 'list'):
+    if ta.startswith('list') and (tb == 'icode' or tb == ta):
         return False                      # continuation of the last item / one list
     if g > 0:
+        return True
+    if tb == 'eof':
         return True
     if ta in ('atx', 'hr', 'fence', 'html', 'setext'):
         return True                       # closed on their last line
     if ta == 'def':
-        return tb != 'icode'              # an indented line continues the paragraph-like definition
+        # an indented line or an empty list item cannot interrupt the paragraph-like definition
+        return tb != 'icode' and not getattr(b, 'empty_start', False) and tb not in ('list.', 'list)')
     if ta == 'para':
         return tb in ('atx', 'hr', 'fence', 'quote', 'html', 'html6')
     if ta == 'table':
@@ -468,47 +481,46 @@ def allowed(a, b, g):
     return False                          # html6, quote, list: a blank line is needed
 
 
-# contexts: (blocks, gaps, lead) -> list of top-level blocks, or None when not spellable
-def _q(inner=None, lazy=False):
+def EOF():
+    """Nothing: `[x, EOF()]` with gap n writes n blank lines behind x."""
+    return Blk([], [], tag='eof')
+
+
+# contexts: (blocks, gaps, lead) -> (top-level blocks, gaps, lead), or None when not spellable.
+# _q(outer) / _l(outer) wrap the blocks first and hand the result to `outer`:
+# 'QL' = _l(_q()) is a list inside a quote, 'LQ' = _q(_l()) a quote inside a list item.
+def _q(outer=None, lazy=False):
     def f(bs, g, lead):
         r = [quote(bs, g, lead, lazy=lazy)]
-        return inner(r, 1, ()) if inner else r
+        return outer(r, 1, ()) if outer else (r, [], ())
     return f
 
 
-def _l(inner=None, marker='-', blank_start=False, second=None, lazy=False):
+def _l(outer=None, marker='-', blank_start=False, second=None, lazy=False):
     def f(bs, g, lead):
         if lead:
             return None                   # an item cannot begin with two blank lines
-        if bs[0].tag == 'def' and blank_start:
+        if blank_start and bs[0].tag in ('def', 'eof'):
             return None
         items = [item(bs, g, blank_start=blank_start, lazy=lazy)]
         if second is not None:
             items.insert(0, item([para('one')]))
         r = [lst(items, marker, between=second or 0)]
-        return inner(r, 1, ()) if inner else r
+        return outer(r, 1, ()) if outer else (r, [], ())
     return f
 
 
-def _after_para(bs, g, lead):
-    return [para('zzz'), quote(bs, g, lead)]
-
-
 CTXS = {
-    'top': lambda bs, g, lead: [seq(bs, g, lead)],
+    'top': lambda bs, g, lead: (bs, g if isinstance(g, (list, tuple)) else [g] * (len(bs) - 1), lead),
     'Q': _q(), 'Qz': _q(lazy=True),
     'L': _l(), 'Lz': _l(lazy=True), 'Lb': _l(blank_start=True), 'O': _l(marker='10.'),
     'L2': _l(second=0), 'L2l': _l(second=1), 'L2b': _l(second=2, blank_start=True),
     'QL': _l(_q()), 'QLz': _l(_q(lazy=True), lazy=True), 'LQ': _q(_l()), 'LQz': _q(_l(lazy=True), lazy=True),
     'QQ': _q(_q()), 'LL': _l(_l(), marker='+'), 'QLQ': _q(_l(_q())), 'LQL': _l(_q(_l()), marker='+'),
-    'QL2': _l(_q(), second=1), 'LbQ': _q(_l(blank_start=True)), 'pQ': _after_para,
+    'QL2': _l(_q(), second=1), 'LbQ': _q(_l(blank_start=True)),
+    'pQ': lambda bs, g, lead: ([para('zzz'), quote(bs, g, lead)], [1], ()),
 }
-# NB: _q(inner) / _l(inner) build the innermost container first: 'QL' = a list inside a quote,
-# 'LQ' = a quote inside a list item.
-
-
-def _in(ctx, bs, g=1, lead=()):
-    return CTXS[ctx](bs, g, lead)
+FEW = ('top', 'Q', 'L', 'Lb', 'L2l', 'QL', 'LQ', 'LQz')
 
 
 def _ok_seq(bs, gaps):
@@ -519,87 +531,105 @@ def _ok_seq(bs, gaps):
     return True
 
 
-def line_cases():
-    """Yield (tag, blocks, gaps, lead) of top-level documents -- deterministic, seed independent."""
+class Cases:
+    """The directed documents; `emit` counts every candidate and builds only those of slice k of n,
+    so that the workers share the work without each generating everything."""
+
+    def __init__(self, k, n):
+        self.k, self.n, self.i, self.out = k, n, 0, []
+
+    def emit(self, tag, ctx, build):
+        """build() -> (blocks inside the context, gaps, lead[, top-level blocks behind the context,
+        gap before them[, blank lines at the start of the document]])"""
+        self.i += 1
+        if self.i % self.n != self.k:
+            return
+        spec = tuple(build())
+        bs, g, lead, after, ag, dlead = spec + (None, 1, ())[len(spec) - 3:]
+        if not _ok_seq(bs, g):
+            return
+        r = CTXS[ctx](bs, g, lead)
+        if r is None:
+            return
+        top, gaps, dl = r
+        top, gaps = list(top), list(gaps)
+        if after:
+            gaps += [ag] + [1] * (len(after) - 1)
+            top += after
+            if not _ok_seq(top, gaps):
+                return
+        end = ('', '\n\n\n')[self.i % 7] if self.i % 7 < 2 else '\n'
+        text, exp = ldoc(top, gaps, tuple(dl) + tuple(dlead), end)
+        self.out.append(('%s|%s' % (tag, ctx), text, exp))
+
+
+def _list_shapes():
     V = VOCAB
+    P = lambda *a: para(*(a or ('li',)))      # noqa: E731
+    return [
+        ('one', lambda m: lst([item([P()])], m)),
+        ('one2', lambda m: lst([item([P('li', 'li2')])], m)),
+        ('two', lambda m: lst([item([P()]), item([P()])], m)),
+        ('twol', lambda m: lst([item([P()]), item([P()])], m, between=2)),
+        ('pf', lambda m: lst([item([P(), V['fence']()], gaps=2)], m)),
+        ('bs', lambda m: lst([item([P()], blank_start=True)], m)),
+        ('bs2', lambda m: lst([item([P()]), item([P(), P()], blank_start=True, gaps=2)], m)),
+        ('nest', lambda m: lst([item([P(), lst([item([P()])], '+')], gaps=0)], m)),
+        ('nest3', lambda m: lst([item([P(), lst([item([P(), lst([item([P()]), item([P()])], '1)')],
+                                                      gaps=0)], '+')], gaps=0)], m)),
+        ('nestbs', lambda m: lst([item([lst([item([P()], blank_start=True)], '+')], blank_start=True)], m)),
+        ('late', lambda m: lst([item([P(), lst([item([P()])], '+'), P('ccc'), V['atx']()],
+                                     gaps=[0, 2, 3])], m)),
+        ('late2', lambda m: lst([item([P(), lst([item([P(), lst([item([P()])], '1.'), P('in')],
+                                                      gaps=[0, 2])], '+'), P('out')], gaps=[0, 3])], m)),
+        ('q', lambda m: lst([item([quote([P()])])], m)),
+        ('qn', lambda m: lst([item([P(), quote([lst([item([P()]), item([P()])], '+')])], gaps=2)], m)),
+        ('empty', lambda m: lst([item([P()]), item([])], m)),
+        ('icode', lambda m: lst([item([V['icode']()]), item([P(), V['icodeb']()], gaps=2)], m)),
+        ('tbl', lambda m: lst([item([V['table']()]), item([V['table']()])], m)),
+    ]
+
+
+def line_docs(k, n):
+    """Slice k of n of the directed documents: [(tag, text, expected shape)] -- deterministic and
+    independent of the seed."""
+    V = VOCAB
+    C = Cases(k, n)
     ctxs = list(CTXS)
 
-    def emit(tag, ctx, bs, g=1, lead=(), after=None, ag=1, dlead=()):
-        """bs inside the context; `after`: top-level blocks following the context"""
-        if not _ok_seq(bs, g):
-            return None
-        top = _in(ctx, bs, g, lead)
-        if top is None:
-            return None
-        gaps = [1] * (len(top) - 1)
-        if after:
-            top = top + after
-            gaps += [ag] + [1] * (len(after) - 1)
-        return ('%s|%s' % (tag, ctx), top, gaps, dlead)
-
-    # A. tables: identical / spacer / short / over-long rows, in every context, preceded by blank
-    #    lines, definitions and paragraphs inside the container, followed by other blocks
+    # A. tables: identical / spacer / short / over-long rows, in every context, preceded (inside
+    #    the container) by blank lines, definitions and other blocks, followed by other blocks
     pres = [('none', [], [], ()), ('lead1', [], [], ['']), ('lead3', [], [], ['', '  ', '']),
             ('def0', ['def1'], [0], ()), ('def1', ['def1'], [1], ()), ('def2', ['def2'], [0], ()),
             ('def2b', ['def2', 'def3'], [0, 2], ()), ('para1', ['p1'], [1], ()), ('para3', ['p2'], [3], ()),
             ('atx0', ['atx'], [0], ()), ('tab', ['table'], [1], ()), ('lead+def', ['def4'], [1], [''])]
+    posts = [('end', [], []), ('p', ['p1'], [1]), ('atx', ['atx'], [0]), ('same', ['table'], [2])]
     for tn, tl in TABLES.items():
         for c in ctxs:
             for pn, pb, pg, lead in pres:
-                for an, after, ag in (('end', None, 1), ('p', ['p1'], 1), ('atx', ['atx'], 0), ('same', ['table'], 2)):
-                    bs = [V[k]() for k in pb] + [table(*tl)]
-                    inner_after = [V[k]() for k in after] if after else []
-                    # the follower goes inside the container as well
-                    yield emit('A:%s:%s:%s' % (tn, pn, an), c, bs + inner_after, pg + ([ag] if after else []), lead)
+                for an, ab, ag in posts:
+                    C.emit('A:%s:%s:%s' % (tn, pn, an), c, lambda: (
+                        [V[x]() for x in pb] + [table(*tl)] + [V[x]() for x in ab], pg + ag, lead))
             for dl in (['', ''], ['   ']):
-                yield emit('A:%s:doclead' % tn, c, [table(*tl)], 1, (), after=[V['p1']()], dlead=dl)
+                C.emit('A:%s:doclead' % tn, c, lambda: ([table(*tl)], 1, (), [V['p1']()], 1, dl))
 
     # B. lists followed by >= 2 blank lines and a non-list block / the end of input, at any depth
-    def lists():
-        P = lambda *a: para(*(a or ('li',)))      # noqa: E731
-        yield 'one', lambda m: lst([item([P()])], m)
-        yield 'one2', lambda m: lst([item([P('li', 'li2')])], m)
-        yield 'two', lambda m: lst([item([P()]), item([P()])], m)
-        yield 'twol', lambda m: lst([item([P()]), item([P()])], m, between=2)
-        yield 'pf', lambda m: lst([item([P(), V['fence']()], gaps=2)], m)
-        yield 'bs', lambda m: lst([item([P()], blank_start=True)], m)
-        yield 'bs2', lambda m: lst([item([P()]), item([P(), P()], blank_start=True, gaps=2)], m)
-        yield 'nest', lambda m: lst([item([P(), lst([item([P()])], '+')], gaps=0)], m)
-        yield 'nest3', lambda m: lst([item([P(), lst([item([P(), lst([item([P()]), item([P()])], '2)')],
-                                                         gaps=0)], '+')], gaps=0)], m)
-        yield 'nestbs', lambda m: lst([item([lst([item([P()], blank_start=True)], '+')], blank_start=True)], m)
-        yield 'late', lambda m: lst([item([P(), lst([item([P()])], '+'), P('ccc'), V['atx']()],
-                                         gaps=[0, 2, 3])], m)
-        yield 'late2', lambda m: lst([item([P(), lst([item([P(), lst([item([P()])], '1.'), P('in')],
-                                                          gaps=[0, 2])], '+'), P('out')], gaps=[0, 3])], m)
-        yield 'q', lambda m: lst([item([quote([P()])])], m)
-        yield 'qn', lambda m: lst([item([P(), quote([lst([item([P()]), item([P()])], '+')])], gaps=2)], m)
-        yield 'empty', lambda m: lst([item([P()]), item([])], m)
-        yield 'icode', lambda m: lst([item([V['icode']()]), item([P(), V['icodeb']()], gaps=2)], m)
-        yield 'tbl', lambda m: lst([item([V['table']()]), item([V['table']()])], m)
-
-    followers = [None, 'p1', 'p2', 'atx', 'setext3', 'hr', 'fence', 'html', 'table', 'quote', 'olist', 'def2']
-    for ln, mk in lists():
+    followers = ['eof', 'p1', 'p2', 'atx', 'setext3', 'hr', 'fence', 'html', 'table', 'quote', 'olist', 'def2']
+    for ln, mk in _list_shapes():
         for marker in ('-', '3.'):
             for nb in (1, 2, 3, ['  ', ''], ['', '    ', '']):
                 for fo in followers:
-                    for c in ctxs:
-                        if c in ('LL', 'LQL') or (marker == '3.' and c not in ('top', 'Q', 'L', 'LQ', 'QL')):
-                            continue      # '+' is used by the nested lists of the shapes
-                        l = mk(marker)
-                        if fo is None:
-                            n = nb if isinstance(nb, int) else len(nb)
-                            yield emit('B:%s:%s:eof%d' % (ln, marker, n), c, [l], 1, (),
-                                       after=None, dlead=())
-                            continue
-                        f = V[fo]()
-                        if fo == 'olist' and marker == '3.':
-                            f = V['list']()
-                        # follower inside the context (same container as the list) ...
-                        yield emit('B:%s:%s:in:%s' % (ln, marker, fo), c, [l, f], [nb])
+                    for c in (ctxs if marker == '-' else FEW):
+                        def fol():
+                            if fo == 'eof':
+                                return EOF()
+                            return V['list']() if (fo == 'olist' and marker == '3.') else V[fo]()
+                        # follower inside the context (in the container that holds the list) ...
+                        C.emit('B:%s:%s:in:%s' % (ln, marker, fo), c, lambda: ([mk(marker), fol()], [nb], ()))
                         # ... and behind the context, at the top level
                         if c != 'top':
-                            yield emit('B:%s:%s:out:%s' % (ln, marker, fo), c, [l], 1, (), after=[f], ag=nb)
+                            C.emit('B:%s:%s:out:%s' % (ln, marker, fo), c,
+                                   lambda: ([mk(marker)], 1, (), [fol()], nb))
 
     # C. all ordered pairs of the vocabulary (identical siblings included) x gaps x contexts
     names = LEAVES + CONTS + DEFS
@@ -607,37 +637,35 @@ def line_cases():
         for b in names:
             for g in (0, 1, 2, 3):
                 for c in ctxs:
-                    x, y = V[a](), V[b]()
-                    if x.tag == 'list' and y.tag == 'list':
-                        y = lst([item([para('li')]), item([para('li')])], '+' if a != 'listn' else '7)')
-                        if c in ('LL', 'LQL') or a == 'olist':
-                            continue
-                    yield emit('C:%s:%s:%d' % (a, b, g), c, [x, y], g)
+                    def pair():
+                        x, y = V[a](), V[b]()
+                        if x.tag == y.tag and x.tag.startswith('list'):
+                            y = lst([item([para('li')]), item([para('li')])], '+' if x.tag != 'list+' else '-')
+                        return [x, y], g, ()
+                    C.emit('C:%s:%s:%d' % (a, b, g), c, pair)
     # identical blocks around a different one
     for a in LEAVES + CONTS:
         for m in ('p1', 'atx', 'def2'):
             for c in ctxs:
-                if V[a]().tag == 'list' and c in ('LL', 'LQL'):
-                    continue
-                yield emit('C3:%s:%s' % (a, m), c, [V[a](), V[m](), V[a]()], [1, 2] if m != 'def2' else [2, 1])
+                C.emit('C3:%s:%s' % (a, m), c, lambda: (
+                    [V[a](), V[m](), lst([item([para('li')])], '+') if V[a]().tag.startswith('list') else V[a]()],
+                    [1, 2] if m != 'def2' else [2, 1], ()))
     # identical list items (tight, loose, with children)
     for c in ctxs:
-        if c in ('LL', 'LQL'):
-            continue
         for m in ('-', '1.'):
-            for bt in (0, 1, 2):
-                for ch in (['p1'], ['p1', 'fence'], ['atx'], ['fence'], ['p2', 'quote'], ['icode']):
-                    its = [item([V[k]() for k in ch], gaps=1) for _ in range(3)]
-                    yield emit('C4:%s:%d:%s' % (m, bt, '+'.join(ch)), c, [lst(its, m, between=bt)])
+            for bt in (0, 1, 2, ['  '], ['', '   ']):
+                for ch in (['p1'], ['p1', 'fence'], ['atx'], ['fence'], ['p2', 'quote'], ['icode'], []):
+                    C.emit('C4:%s:%s:%s' % (m, bt, '+'.join(ch)), c, lambda: (
+                        [lst([item([V[x]() for x in ch], gaps=1) for _ in range(3)], m, between=bt)], 1, ()))
 
     # D. blank lines at the start of the input (and of a container), empty and whitespace-only
     leads = [[''], ['', ''], ['', '', ''], [''] * 5, ['  '], ['\t'], ['', '   ', ''], ['   ', '']]
     for a in names:
         for ld in leads:
-            for c in ('top', 'Q', 'QQ', 'LQ', 'pQ'):
-                yield emit('D:%s:%d' % (a, len(ld)), c, [V[a](), V['p1']()], 1, ld)
+            for c in ('top', 'Q', 'QQ', 'LQ', 'pQ', 'QLQ'):
+                C.emit('D:%s:%d' % (a, len(ld)), c, lambda: ([V[a](), V['p1']()], 1, ld))
             for c in ctxs:
-                yield emit('D2:%s:%d' % (a, len(ld)), c, [V[a]()], 1, (), after=[V['p1']()], dlead=ld)
+                C.emit('D2:%s:%d' % (a, len(ld)), c, lambda: ([V[a]()], 1, (), [V['p1']()], 1, ld))
 
     # E. whitespace-only lines of >= 4 columns in front of an indented code block
     for pre in (None, 'p1', 'atx', 'fence', 'def1', 'quote'):
@@ -645,24 +673,22 @@ def line_cases():
             for code in ('icode', 'icodeb'):
                 for c in ctxs:
                     if pre is None:
-                        yield emit('E:none:%s' % code, c, [V[code](), V['p1']()], 1, gap)
+                        C.emit('E:none:%s' % code, c, lambda: ([V[code](), V['p1']()], 1, gap))
                     else:
-                        yield emit('E:%s:%s' % (pre, code), c, [V[pre](), V[code](), V['p1']()], [gap, 1])
+                        C.emit('E:%s:%s' % (pre, code), c, lambda: ([V[pre](), V[code](), V['p1']()], [gap, 1], ()))
 
-
-def line_docs(k, n):
-    """Slice k of n of the directed documents: (tag, text, expected shape)."""
-    i = 0
-    for case in line_cases():
-        if case is None:
-            continue
-        i += 1
-        if i % n != k:
-            continue
-        tag, top, gaps, dlead = case
-        end = ('', '\n\n\n')[i % 7] if i % 7 < 2 else '\n'
-        text, exp = ldoc(top, gaps, dlead, end)
-        yield tag, text, exp
+    # F. a fenced code block / HTML block still open at the end of its container
+    for op in (('fence', '```', 'code'), ('fence', '~~~', 'x', '', 'y'), ('html', '<pre>', 'x'),
+               ('html', '<!-- c', 'd')):
+        for pre in ((), ('p1',), ('def2',)):
+            for c in ctxs:
+                for fo in ('p1', 'atx', 'fence', 'table', 'quote', 'olist', 'eof'):
+                    for ag in (1, 2, 3):
+                        if c != 'top':
+                            C.emit('F:%s:%s:%d' % (op[1], fo, ag), c, lambda: (
+                                [V[x]() for x in pre] + [leaf(*op, tag='open')], 1, (),
+                                [EOF() if fo == 'eof' else V[fo]()], ag))
+    return C.out
 
 
 BIASES = [
@@ -699,11 +725,71 @@ def _trees(unit):
             yield 'r%d' % i, t, 1, 0
 
 
+def parse_only(text):
+    use_repo()
+    from mistletoe import Document, HtmlRenderer
+    with HtmlRenderer():                 # HtmlBlock is a block token only while it is active
+        return Document(text), None
+
+
+def _work_lines(unit, res):
+    _, k, n = unit
+    res['lines_by_family'] = {}
+    res['shape_samples'] = {}
+    seen = set()
+    for tag, text, exp in line_docs(k, n):
+        if text in seen:
+            continue
+        seen.add(text)
+        fam = tag.split(':', 1)[0]
+        st = res['lines_by_family'].setdefault(fam, [0, 0])
+        res['evaluations'] += 1
+        status, ncmp, detail = lcheck(text, exp)
+        res['contract_evaluations'] += 1 + ncmp
+        if status == 'shape':
+            res['skipped'] += 1
+            res['skipped_shape'] += 1
+            st[1] += 1
+            key = tag.split('|')[0].split(':')[0] + ':' + detail.split(':')[-1].strip()
+            smp = res['shape_samples'].setdefault(key, [0, text, detail])
+            smp[0] += 1
+            if len(text) < len(smp[1]):
+                smp[1], smp[2] = text, detail
+            continue
+        st[0] += 1
+        res['checked'] += 1
+        if ncmp > 2:
+            res['hashes'].add(hashlib.md5(text.encode()).digest()[:8])
+        if status == 'ok':
+            if len(res['samples']) < 1 and ncmp > 4:
+                res['samples'].append({'input': text, 'directed': tag})
+            continue
+        entry = {'key': '%s|%s' % (status, text), 'contract': status, 'input': text,
+                 'observed': detail, 'directed': tag,
+                 'expected': 'token.line_number == line on which the block was written',
+                 'replay': 'from mistletoe import Document, HtmlRenderer\n'
+                           'with HtmlRenderer(): d = Document(%r)\n'
+                           '# walk d.children and print (type(t).__name__, t.line_number)' % text}
+        cls = lclassify(text, detail) if status == 'c13' else 'unclassified'
+        entry['class'] = cls
+        res['by_class'][cls] = res['by_class'].get(cls, 0) + 1
+        res['failures_total'] += 1
+        res['failures'].append(entry)
+        if len(res['failures']) > 2 * MAX_FAILURES:
+            res['failures'].sort(key=lambda f: (len(f['input']), f['input']))
+            del res['failures'][MAX_FAILURES:]
+    res['failures'].sort(key=lambda f: (len(f['input']), f['input']))
+    del res['failures'][MAX_FAILURES:]
+    return res
+
+
 def _work(arg):
     unit, seed = arg
     use_repo()
     res = {'evaluations': 0, 'contract_evaluations': 0, 'failures': [], 'samples': [],
            'hashes': set(), 'by_class': {}, 'failures_total': 0, 'skipped': 0, 'skipped_shape': 0, 'checked': 0}
+    if unit[0] == 'lines':
+        return _work_lines(unit, res)
     for name, tree, nrand, nbias in _trees(unit):
         nt = docs.tree_depth(tree) >= 2 or len(docs.nodefs(tree)) >= 2
         seen_here = set()
@@ -764,13 +850,25 @@ def run(tier, seed, workers):
         enum, rand = (3, 2), (40, 4, 25000)
     nchunks = workers * 4
     units = [('hand',)] + [('enum', enum[0], enum[1], k, nchunks) for k in range(nchunks)]
+    nlines = workers * 4
+    units += [('lines', k, nlines) for k in range(nlines)]
     per = max(1, rand[2] // (workers * 8))
     for start in range(0, rand[2], per):
         units.append(('rand', rand[0], rand[1], seed, start, min(per, rand[2] - start)))
     parts = pool_map(_work, [(u, seed) for u in units], workers)
     out = {'evaluations': 0, 'contract_evaluations': 0, 'failures': [], 'samples': []}
     hashes, by_class, total, skipped, checked, sshape = set(), {}, 0, 0, 0, 0
+    fam, shp = {}, {}
     for p in parts:
+        for k, v in p.get('lines_by_family', {}).items():
+            t = fam.setdefault(k, [0, 0])
+            t[0] += v[0]
+            t[1] += v[1]
+        for k, v in p.get('shape_samples', {}).items():
+            t = shp.setdefault(k, [0, v[1], v[2]])
+            t[0] += v[0]
+            if (len(v[1]), v[1]) < (len(t[1]), t[1]):
+                t[1], t[2] = v[1], v[2]
         out['evaluations'] += p['evaluations']
         out['contract_evaluations'] += p['contract_evaluations']
         out['failures'].extend(p['failures'])
@@ -793,6 +891,9 @@ def run(tier, seed, workers):
     out['skipped_c03_failure'] = skipped
     out['skipped_shape_mismatch'] = sshape
     out['checked'] = checked
+    out['directed_by_family'] = {k: {'checked': v[0], 'skipped_shape_mismatch': v[1]} for k, v in sorted(fam.items())}
+    out['directed_shape_mismatch_samples'] = {k: {'count': v[0], 'smallest_input': v[1], 'detail': v[2]}
+                                              for k, v in sorted(shp.items())}
     out['distinct_nontrivial'] = len(hashes)
     out['exhaustive'] = False
     out['domain'] = (
@@ -802,9 +903,26 @@ def run(tier, seed, workers):
         'trees with <= %d blocks, nesting <= %d over the reduced vocabulary x (canonical + %d '
         'biased [blank-start items, lazy lines, leading blank lines, definitions moved to '
         'top/bottom] + 1 seeded spelling); (c) %d seeded random trees (seed %d), <= %d blocks, '
-        'nesting <= %d x (canonical + 1 seeded spelling)'
+        'nesting <= %d x (canonical + 1 seeded spelling); (d) LINES, %d directed documents written '
+        'line by line (same for every seed), vocabulary of %d blocks (1-3 line paragraphs, ATX, '
+        'setext with 1-4 content lines, ***, closed/unclosed fences and HTML blocks with blank lines '
+        'inside, indented code with blank and whitespace-only lines inside, tables, empty/lazy/'
+        'two-block quotes, tight/loose/nested/blank-start/empty-item lists, 1-3 line link '
+        'definitions incl. one whose second line starts a paragraph) in %d contexts (top level, '
+        'quote, list item first/second/blank-start/ordered, quote-in-list, list-in-quote, 3 deep, '
+        'lazy variants): A tables with identical body rows / rows equal to the header or the '
+        'delimiter row / spacer, short, over-long, astral, pipe-less rows x %d prefixes (blank '
+        'lines, definitions, blocks inside the container) x 4 followers; B %d list shapes (nesting '
+        '<= 3, blank-start items, late children) followed by 1-3 blank or whitespace-only lines and '
+        'a non-list block, another list type or the end of input, inside and behind every '
+        'context; C all ordered pairs of the vocabulary (identical siblings included) with 0-3 '
+        'blank lines between them in every context, x-y-x triples, lists of 3 identical items; '
+        'D 1-5 blank / whitespace-only lines at the start of the input and of quotes; E '
+        'whitespace-only lines of >= 4 columns before indented code; F blocks left open at the '
+        'end of their container; document end "\\n", none or 3 line ends'
         % (len(hand_trees()), len(BIASES), enum[0], enum[1], len(BIASES), rand[2], seed,
-           rand[0], rand[1]))
+           rand[0], rand[1], sum(v[0] + v[1] for v in fam.values()), len(VOCAB), len(CTXS), 12,
+           len(_list_shapes())))
     out['rule'] = (
         'Document(write(tree, spelling).text) inside an active HtmlRenderer; every block token '
         'matched structurally to a tree node must carry the line the writer recorded for that '
@@ -812,5 +930,11 @@ def run(tier, seed, workers):
         'other cases are skipped and counted in skipped_c03_failure (of which '
         'skipped_shape_mismatch would also fail the structural matching); `checked` cases were compared. Non-trivial: the tree '
         'nests or has >= 2 blocks; distinct = distinct written texts among checked cases. '
+        'LINES documents: the expected token shape (kinds and nesting, cells of a row not counted) '
+        'and the line of every block come from the writer; precondition: the token tree has that '
+        'shape, otherwise the case is skipped as a parsing (C03) matter and counted in '
+        'skipped_shape_mismatch / directed_by_family, smallest inputs per cause in '
+        'directed_shape_mismatch_samples; every cell token of a row must report the row\'s line; '
+        'non-trivial: >= 2 block tokens compared. '
         'contract_evaluations counts one per compared token plus one noraise per case.')
     return out
